@@ -11,6 +11,8 @@ import z3
 
 
 def tightness_stage(ck, tier):
+    if ck._skip('E1-tightness'):
+        return
     t0 = time.time()
     n_val, bad = e1_stage.validate_translator(ck.seed, per_fn=60)
     result = dict(obligations=0, discharged=0, solver_s=0.0, queries=0, violations=[], samples=[],
